@@ -12,9 +12,10 @@ import (
 
 func TestCheck(t *testing.T) {
 	vcommon.Main(t, "C13",
-		vcommon.S("value", 320000, 9600000, genValueCase(), checkValue),
-		vcommon.S("doc", 640000, 19200000, genDocCase(), checkDoc),
+		vcommon.S("value", 280000, 8400000, genValueCase(), checkValue),
+		vcommon.S("doc", 512000, 15360000, genDocCase(), checkDoc),
 		vcommon.S("nonfinite", 32000, 960000, genNonFiniteCase(), checkNonFinite),
+		vcommon.S("mutate", 48000, 1440000, genMutCase(), checkMutate),
 		vcommon.S("refself", 48000, 1600000, genRefCase(), checkRefSelf),
 		vcommon.S("refpy", 64, 1920, genPyCase(), checkRefPy),
 	)
